@@ -733,6 +733,20 @@ impl Callbacks for Cb {
                                     found = with_no_trimmed_paths!(format!("{}", k.const_));
                                     break 'outer;
                                 }
+                                // `&ErrorKind::NotFound`: a field-less enum variant built in the promoted body
+                                if let Rvalue::Aggregate(ak, fields) = &b.1 {
+                                    if let AggregateKind::Adt(adt_did, vidx, ..) = &**ak {
+                                        if fields.is_empty() {
+                                            let adt = tcx.adt_def(*adt_did);
+                                            found = format!(
+                                                "{}::{}",
+                                                with_no_trimmed_paths!(tcx.def_path_str(*adt_did)),
+                                                adt.variant(*vidx).name
+                                            );
+                                            break 'outer;
+                                        }
+                                    }
+                                }
                             }
                         }
                     }
